@@ -603,6 +603,59 @@ theorem hashShared_spec (x : QCtx) (k : Bytes) (hk : x.hkey = some k) (values : 
         · subst hji; simp
         · simp [hji]
 
+/-- with a key, in-range positions and values that are not themselves envelopes the replacement succeeds -/
+theorem hashShared_total (x : QCtx) (k : Bytes) (hk : x.hkey = some k) (values : List Bytes) :
+    ∀ (idxs done : List Nat) (acc : List Bytes), acc.length = values.length →
+      (∀ i ∈ idxs, i < values.length) →
+      (∀ i ∈ idxs, ∀ v, values[i]? = some v → registryMatch v = false) →
+      (∀ j, acc[j]? = if j ∈ done then (values[j]?).map (generateHMAC x.c k) else values[j]?) →
+      ∃ out, hashShared x true idxs done acc = .ok out := by
+  intro idxs
+  induction idxs with
+  | nil => intro done acc _ _ _ _; exact ⟨acc, rfl⟩
+  | cons i is ih =>
+    intro done acc hlen hlt hm hacc
+    unfold hashShared
+    by_cases hd : i ∈ done
+    · simp only [Bool.true_and, List.contains_iff_mem, hd, if_true]
+      exact ih done acc hlen (fun i' hi' => hlt i' (by simp [hi'])) (fun i' hi' => hm i' (by simp [hi'])) hacc
+    · simp only [Bool.true_and, List.contains_iff_mem, hd, if_false]
+      have hilt : i < values.length := hlt i (by simp)
+      have hv : values[i]? = some values[i] := List.getElem?_eq_getElem hilt
+      have hai : acc[i]? = some values[i] := by rw [hacc i]; simp [hd, hv]
+      have hmv : registryMatch values[i] = false := hm i (by simp) _ hv
+      simp only [hai, calcHmac_plain x k _ hk hmv]
+      have hlen' : (acc.set i (generateHMAC x.c k values[i])).length = values.length := by simp [hlen]
+      apply ih (i :: done) _ hlen' (fun i' hi' => hlt i' (by simp [hi'])) (fun i' hi' => hm i' (by simp [hi']))
+      intro j
+      by_cases hji : j = i
+      · subst hji; simp [hv, hlen, hilt]
+      · have hij : ¬ i = j := fun e => hji e.symm
+        simp [hij, hji, hacc j]
+
+/-- **`OnBind` hashes every search parameter, whatever else the statement compares**: with an HMAC key,
+every placeholder of a searchable comparison inside the bound values and no bound search value that is
+itself an envelope, `OnBind` succeeds – it never falls back to forwarding the values as the client sent
+them – and the values it forwards are hashed exactly at the placeholders of searchable comparisons
+(once each, also when a placeholder is used in several comparisons) and untouched elsewhere. -/
+theorem rewriteBind_total (x : QCtx) (k : Bytes) (hk : x.hkey = some k) (cond : Cond) (params : List Bytes)
+    (hlt : ∀ j ∈ itemParams x cond, j < params.length)
+    (hm : ∀ v ∈ condValues x params cond, registryMatch v = false) :
+    ∃ params', rewriteBind x cond params = .ok params' := by
+  unfold rewriteBind
+  rw [(bind_switches x.d).1, (bind_switches x.d).2]
+  unfold rewriteBindWith
+  simp only
+  have hany : ¬ ((itemParams x cond).any fun i => decide (params.length ≤ i)) = true := by
+    intro h
+    obtain ⟨j, hj, hle⟩ := List.any_eq_true.mp h
+    have := hlt j hj
+    simp at hle
+    omega
+  rw [if_neg hany, if_neg (Nat.not_lt.mpr (bindCount_own_le x cond))]
+  exact hashShared_total x k hk params (itemParams x cond) [] params rfl hlt
+    (fun i hi v hv => hm v (itemParams_value x params cond i v hi hv)) (by simp)
+
 /-- what `OnBind` sends to the database: hashed at the collected positions, untouched elsewhere -/
 theorem rewriteBind_spec (x : QCtx) (k : Bytes) (hk : x.hkey = some k) (cond : Cond) (params params' : List Bytes)
     (hm : ∀ v ∈ condValues x params cond, registryMatch v = false)
